@@ -36,6 +36,13 @@ var c08Shapes = []string{
 	"while 0 { 1 } 2", "i=0; while i<2 { i=i+1 } i", "if 1 { if 1 { if 1 { 1 } } }", "func ff() { func gg() { 1 }; gg() }; ff()", "&cv = `{% if 1 {2} %}`; cv", "x = 1; x ?? 2 ? 3 : 4", "1 ? 2 ? 3 : 4 : 5", "1 ? 2, 3 ? 4, 5 ? 6",
 	"x = 3; 'type:' + (x == 1 ? 'melee', x == 2 ? (x > 10 ? 'far', 1 ? 'near'))", "(0 ? 1, 0 ? (0 ? 2, 1 ? 3))", "func cls(u, v) { return u == 1 ? 'a', u == 2 ? (v > 1 ? 'b', true ? 'c') }; '<' + cls(3, 0) + '>'",
 	"1 + (0 ? 1, 0 ? 2)", "[0 ? 1, 1 ? 2, 0 ? (1 ? 3)]", "(1 ? (0 ? 1, 1 ? 2), 0 ? 3) + 1", "`{0 ? 1, 0 ? (0 ? 2, 1 ? 3)}`", "&cv = 0 ? 1, 0 ? (0 ? 2, 1 ? 3); cv",
+	"[1?1,1]", "v=0; [v?1,1]", "func t2(a, b) { a + b }; t2(1 ? 2, 3)", "{'a': 1 ? 2, 'b': 3}", "[0 ? 1, 1 ? 2, 3]", "[1 ? 2, 3][0:1]", "`{[1?1,1]}`", "&cv = [0 ? 1, 2]; cv",
+	// definitions inside bodies, several per body, and at unusual positions
+	"func f(x) { p=1; q=2; &a=5; &b = x ? 1+2+3+4+5+6+7+8 : 0; a + b }; f(0) + f(1)", "func f() { [&a = 1, &b = 0 ? 3 : 4] }; f()", "func f() { func g1() { 1 ? 2 : 3 }; func g2(y) { if y { return 4 }; 5 }; g1() + g2(0) + g2(1) }; f()",
+	"&outer = (1 ? 2 : 3) + 1; func f() { &i1 = 0 || 7; &i2 = 1 && 8; func h() { while 0 { } ; 9 }; i1 + i2 + h() }; f() + outer", "func f(x) { if x { &m = x ? 1 : 2; &n = x ?? 3 ? 4 : 5; return m + n }; func z() { 0 ? 1, 1 ? 2 }; z() }; f(0); f(1)",
+	"x = 1; `{% func tf() { &ta = x ? 1 : 2; &tb = x ? 3 : 4; ta + tb } %}{tf()}`", "func ap(fn, v) { fn(v) }; func yn(q) { q ? 'y' : 'n' }; ap(yn, 0)",
+	"'s' + `{1}{2}{3}` + 't'; func late() { &l1 = 1 ? 2 : 3; &l2 = 0 ? 4 : 5; l1 * l2 }; late()", "a1=1;a2=2;a3=3;a4=4;a5=5;a6=6;a7=7;a8=8; func deepf() { func d1() { func d2() { &d3 = a1 ? a2 : a3; &d4 = a4 ? a5 : a6; d3 + d4 }; d2() }; d1() }; deepf()",
+	"c = 1; while c { func wf() { &w1 = c ? 1 : 2; &w2 = c ? 3 : 4; w1 + w2 }; c = 0 }; wf()", "if 1 { func inIf() { &q1 = 1 || 2; &q2 = 0 || 3; q1 + q2 } } else { func inElse() { 1 } }; inIf()",
 	"^st 力量60 敏捷70", "^st 力量+1d4", "^st &手枪=1d6+2", "^st 力量*1.5: 3", "2d6k1 + d20优势", "3a8 + 2c5 + b1 + f", "(1 || 2)d(0 || 6)", "[1,2][0] || [3][0]", "xs=[1,2]; xs[0] = xs[1] = 5; xs",
 }
 
